@@ -10,6 +10,10 @@ before the object under test: a default shared between instances shows only ther
 matrix outlives its call: state keyed by something recyclable such as id(dm) collides only there).
 A fourth kind of history mixes calls that use the OPTIONAL per-call arguments of the entry point (SIMUS.evaluate(dm, b=...);
 discovered from the signatures) with plain calls: the plain probe before and after them must give a fresh object's output.
+A fifth kind (refuse) is about what a call that RAISES leaves in the PROCESS: a refused call (every documented way of refusing,
+every class that refuses, alone and as the last step of a pipeline), then - same process, same and fresh objects - calls
+whose legitimate computation goes through 1/0, 0/0, log of denormals, overflow, or a third-party estimator; each must give a
+fresh process's output (these runs do not wrap the single calls in np.errstate / catch_warnings, which would undo the damage).
 Every run (the sequence, the twin, each fresh reference) happens in its OWN process forked from a worker that has only
 imported the library and never called it, so state kept at module or class level (a memo dict, a process-wide random
 generator) cannot leak into the reference outputs.
@@ -81,9 +85,26 @@ RULE = (
     "tuple / ndarray; the other calls and EVERY probe are plain; the probe sits at position 0 (70%), right after the first such call "
     "and at the end; a call with arguments is compared with a fresh object (own process) called the same way, a plain one with a "
     "fresh object's plain call.  "
+    "A REFUSED CALL, THEN FLOATING-POINT SPECIAL CASES (kind refuse, >= 40 quick, a loop of its own): in ONE process [all the probes "
+    "first, 25%], a call that the library refuses - a zero -> WPM / FMF / MultiMOORA, a negative value -> WSM / WPM / FMF / MultiMOORA, "
+    "a minimise objective -> WSM / WPM, a NaN -> WSM / WPM / FMF / RatioMOORA / RefPointMOORA, each class ALONE and as the LAST STEP OF "
+    "A PIPELINE in every way the value can reach it (passed through SumScaler(weights); a zero made by MinMaxScaler; a negative made by "
+    "NegateMinimize / StandarScaler; a NaN made by CenitDistanceMatrixScaler on a constant criterion; behind InvertMinimize / "
+    "VectorScaler), a non-matrix argument / a single row to any class, SIMUS.evaluate(dm, b=one entry too few / too many), a filter "
+    "whose criterion is missing (alone / first step) - made once or twice, then 7-8 probes: on NEW objects 1/0 -> inf (InvertMinimize on "
+    "a criterion to minimise holding a 0, alone or before WPM / WSM / RatioMOORA / FMF), 0/0 -> NaN (CenitDistanceMatrixScaler, CRITIC, "
+    "VectorScaler, SumScaler on a constant / all-zero criterion), logarithms and products of 1e-160 .. 1e-320 (EntropyWeighter, WPM, "
+    "FMF), overflow to inf (values 1e155 .. 3e307 through WSM, WPM, FMF, RatioMOORA, VectorScaler, StandarScaler, SumScaler), "
+    "IterativeImputer(sample_posterior=True; integer seed or, 40%, random_state=None = numpy's process-wide generator, seeded by the "
+    "caller at the start of the process), KNNImputer, alone or before TOPSIS; on the SAME object that refused 1-2 matrices of its "
+    "domain (a 0 in a criterion to minimise where it starts with InvertMinimize; tiny / huge / constant criteria).  The caller's "
+    "process-wide settings (numpy error state: numpy's defaults 60% / all ignored / all warned; warnings ignored; np.random and random "
+    "seeded) are made ONCE at the start of the process and no call of these runs is wrapped in np.errstate / catch_warnings; every "
+    "probe output must equal that of a fresh process with the same settings in which the probe is the only call.  "
     "Non-trivial: >= 2 successful calls on >= 2 different matrices and the probe at >= 2 positions (per-call arguments: also the probe "
     "accepted after the first call that uses them and an accepted plain call of another matrix; ctor: the last call accepted and "
-    ">= 1 other object in between; stream: >= 50 accepted calls, >= 25 different outputs); distinct by case hash."
+    ">= 1 other object in between; stream: >= 50 accepted calls, >= 25 different outputs; refuse: the call was refused and >= 3 "
+    "probes are accepted in a fresh process); distinct by case hash."
 )
 ASSUMPTIONS = [
     "bit-for-bit = sha1 over dtype, shape and bytes of every array reachable from the output (values, every e_ entry, "
@@ -95,6 +116,10 @@ ASSUMPTIONS = [
     "probe (100-300 matrices, four ways of dropping them), its replay re-runs the whole stream",
     "IterativeImputer is given an integer random_state whenever its configuration draws random numbers; a "
     "numpy Generator / RandomState INSTANCE passed as a parameter is the caller's state and is not generated",
+    "kind refuse: the reference for a call after a refused call is a fresh process given the SAME settings by its caller (numpy "
+    "error state, warnings filter, seeds of np.random / random) in which that call is the only one; an IterativeImputer with "
+    "random_state=None is used there only as an observer of numpy's process-wide generator (seeded by the caller, called once per "
+    "process, never when the probes are also run before the refused call)",
     "the scanner behind Generated.selfWrites is complete for the ways the code stores state (rules in the generated "
     "file's header); checked dynamically here by deep-comparing vars(obj), class attributes and module-level containers "
     "of every skcriteria module before and after every call",
@@ -1424,6 +1449,369 @@ def gen_kwcall_case(rng, spec, params, first_how=None):
             "reuse_dm": rng.random() < 0.5}
 
 
+# ----------------------------------------------------------------------------- a refused call, then floating-point special cases
+# "... or whether an earlier call raised": a call that FAILS on a documented out-of-domain input must leave nothing behind - not
+# on the object and not in the PROCESS (numpy's floating-point error settings, the warnings filters, the process-wide random
+# generators).  What a failed call leaves in the process is invisible to ordinary matrices; it shows in the calls whose
+# legitimate computation goes through a floating-point special case (1/0 -> inf, 0/0 -> NaN, log of a denormal, overflow to
+# inf) or through a third-party estimator.  One process: [the probes,] the refused call (once or twice), the probes - on the
+# SAME object where it can take them and on FRESH objects; every probe output must be what a fresh process gives.  The calls
+# of these runs are NOT wrapped one by one in np.errstate / warnings.catch_warnings (a wrapper around each call would restore
+# whatever the call left behind): the caller's settings are made once, at the start of the process, in the run under test
+# and in every reference process alike.
+
+REFUSE_WAYS = {
+    # way -> decision makers that refuse it (documented domain)
+    "zero": ["WPM", "FMF", "MultiMOORA"],
+    "neg": ["WSM", "WPM", "FMF", "MultiMOORA"],
+    "allmin": ["WSM", "WPM"],
+    "nan": ["WSM", "WPM", "FMF", "RatioMOORA", "RefPointMOORA"],
+}
+# how the offending value reaches the decision maker when it is the last step of a pipeline
+REFUSE_PRE = {
+    "zero": ["pass", "invert", "minmax"],
+    "neg": ["pass", "invert", "negate", "standar"],
+    "allmin": ["pass", "vector"],
+    "nan": ["pass", "cenit"],
+}
+AMBIENT = ["default", "default", "default", "ignore", "warn-all"]
+PROBE_FLAVOURS = ["div0-inf", "0/0-nan", "log-tiny", "overflow-inf", "iterative-imputer", "knn-imputer"]
+
+
+def _tr(cls, **kw):
+    return {"k": "tr", "cls": cls, "kw": kw}
+
+
+def _agg(name, **kw):
+    return {"k": "agg", "spec": {"name": name, **kw}}
+
+
+def _pipe(*steps, op="evaluate"):
+    return {"k": "pipe", "steps": list(steps), "op": op}
+
+
+def _plain_dm(rng, m=None, n=None, mix=None, positive=True):
+    mc = G.dm_case(rng, m=m or rng.randint(3, 5), n=n or rng.randint(2, 4), positive=positive, mix=mix, ties=0.0, dups=0.0)
+    mc["int_matrix"] = False
+    rows = mc["matrix"]
+    if all(r == rows[0] for r in rows):
+        rows[-1] = [v + 1 for v in rows[-1]]
+    return mc
+
+
+def _mixed_objectives(rng, mc):
+    """at least one criterion to minimise and one to maximise (>= 2 criteria)"""
+    o = mc["objectives"]
+    if -1 not in o:
+        o[rng.randrange(len(o))] = -1
+    if 1 not in o:
+        o[rng.randrange(len(o))] = 1
+    return mc
+
+
+def gen_refusal(rng, way, cls=None, piped=False, how=None):
+    """one call that the library refuses: {spec, mc, kw, way, label}"""
+    kw = None
+    if way in REFUSE_WAYS:
+        cls = cls or rng.choice(REFUSE_WAYS[way])
+        pre = (how or rng.choice(REFUSE_PRE[way])) if piped else None
+        mc = _plain_dm(rng, mix="max" if cls in ("WSM", "WPM") and pre not in ("invert", "negate") else None)
+        mx, o = mc["matrix"], mc["objectives"]
+        rows, cols = len(mx), len(mx[0])
+        steps = []
+        if pre in ("invert", "negate"):
+            _mixed_objectives(rng, mc)
+            steps = [_tr("InvertMinimize" if pre == "invert" else "NegateMinimize")]
+        jmax = [j for j in range(cols) if o[j] == 1] or list(range(cols))
+        if pre == "pass":
+            steps = [_tr("SumScaler", target="weights")]
+        if way == "zero":
+            if pre == "minmax":
+                steps = [_tr("MinMaxScaler", target="matrix")]  # the minimum of every criterion becomes an exact 0
+            else:
+                for _ in range(rng.randint(1, 2)):
+                    mx[rng.randrange(rows)][rng.choice(jmax)] = 0.0
+        elif way == "neg":
+            if pre == "standar":
+                steps = [_tr("StandarScaler", target="matrix")]
+            elif pre != "negate":  # NegateMinimize makes the negative values itself
+                i, j = rng.randrange(rows), rng.choice(jmax)
+                mx[i][j] = -abs(mx[i][j]) - 0.5
+        elif way == "allmin":
+            for j in rng.sample(range(cols), rng.randint(1, cols)):
+                o[j] = -1
+            if pre == "vector":
+                steps = [_tr("VectorScaler", target="matrix")]
+        elif way == "nan":
+            if pre == "cenit":
+                steps = [_tr("CenitDistanceMatrixScaler")]  # a constant criterion: 0/0
+                j, v = rng.randrange(cols), rng.randint(1, 40) / 8
+                for r in mx:
+                    r[j] = v
+            else:
+                mx[rng.randrange(rows)][rng.randrange(cols)] = None
+        spec = _pipe(*steps, _agg(cls)) if piped else _agg(cls)
+        label = f"{way} -> {cls}" + (f" behind {pre}" if piped else "")
+    elif way == "shape":
+        spec = cls or rng.choice([s for s in spec_round(rng) if s["k"] in (("agg", "tr") if piped else ("agg", "tr", "user"))])
+        if piped and spec["k"] == "agg":
+            spec = _pipe(_tr("SumScaler", target="weights"), spec)
+        elif piped:
+            spec = _pipe(spec, _agg("RatioMOORA"))
+        if (how or rng.choice(["garbage", "onerow"])) == "garbage":
+            mc = {"garbage": rng.choice(["none", "str", "ndarray", "int", "dict"])}
+        else:
+            mc = in_domain(rng, spec)
+            mc["matrix"], mc["alternatives"], mc["ood"] = mc["matrix"][:1], mc["alternatives"][:1], "onerow"
+        label = "shape:" + (mc.get("garbage") or "onerow") + " -> " + spec_name(spec)
+    elif way == "short-b":
+        spec = _agg("SIMUS", rank_by=rng.choice([1, 2]))
+        mc = in_domain(rng, spec)
+        kw = {"b": _kw_value(rng, how or rng.choice(["short", "short", "long"]), mc)}
+        label = "b with one entry too few / too many -> SIMUS"
+    elif way == "missing":
+        cls = cls or rng.choice(["FilterGE", "FilterLT", "FilterIn", "Filter", "FilterNE"])
+        spec = random_tr_spec(rng, cls)
+        spec["kw"]["ignore_missing_criteria"] = False
+        mc = _plain_dm(rng, n=3)
+        mc["criteria"] = ["Z9", "Z8", "Z7"]
+        if piped:
+            spec = _pipe(spec, rng.choice([_agg("WPM"), _agg("WSM"), _agg("TOPSIS", metric="euclidean")]))
+        label = "criterion named by the filter is missing -> " + spec_name(spec)
+    else:
+        raise KeyError(way)
+    return {"spec": spec, "mc": mc, "kw": kw, "way": way, "label": label, "piped": bool(piped)}
+
+
+def _special(rng, mc, flavour):
+    """push an accepted matrix into a floating-point special case (in place)"""
+    mx, o = mc["matrix"], mc["objectives"]
+    rows, cols = len(mx), len(mx[0])
+    if flavour == "zero-in-min":
+        jm = [j for j in range(cols) if o[j] == -1]
+        if jm:
+            mx[rng.randrange(rows)][rng.choice(jm)] = 0.0
+    elif flavour == "tiny":
+        j = rng.randrange(cols)
+        for r in mx:
+            if r[j] is not None:
+                r[j] = r[j] * rng.choice([1e-300, 1e-308, 1e-320, 1e-160])  # denormals included; never rounds to 0
+    elif flavour == "huge":
+        for j in rng.sample(range(cols), rng.randint(1, cols)):
+            for r in mx:
+                if r[j] is not None:
+                    r[j] = r[j] * rng.choice([1e300, 2.0 ** 1018, 1e155, 3e307])
+    elif flavour == "const":
+        j, v = rng.randrange(cols), rng.choice([0.0, 1.0, 2.5])
+        for r in mx:
+            r[j] = v
+    return mc
+
+
+def same_object_probe(rng, fail):
+    """a matrix for the object that has just refused a call: inside its domain, through a floating-point special case"""
+    spec = fail["spec"]
+    first = spec["steps"][0].get("cls") if spec["k"] == "pipe" else None
+    if first == "InvertMinimize":
+        flavour = rng.choice(["zero-in-min", "zero-in-min", "tiny", "huge"])
+    elif _is_simus(spec):
+        flavour = "plain"  # the LP solver writes to the terminal about a model with inf / nan coefficients
+    else:
+        flavour = rng.choice(["tiny", "huge", "const", "plain"])
+    if first in ("InvertMinimize", "NegateMinimize"):
+        mc = _mixed_objectives(rng, _plain_dm(rng))
+    else:
+        mc = in_domain(rng, spec, m=rng.randint(3, 5))
+    if spec_family(spec) == "filter" or (spec["k"] == "pipe" and any(TR.get(s.get("cls"), ("", ""))[1] == "filter" for s in spec["steps"])):
+        mc["criteria"] = CRITS[: len(mc["matrix"][0])]
+    _special(rng, mc, flavour)
+    return {"same": True, "spec": spec, "mc": mc, "flavour": "same-object:" + flavour}
+
+
+def fp_probe(rng, flavour, global_rng_ok=True):
+    """a FRESH object whose legitimate computation on its matrix goes through a floating-point special case / a third party"""
+    if flavour == "div0-inf":
+        # InvertMinimize on a criterion to minimise that holds a 0: 1/0 must give inf, which the ranking methods accept
+        agg = rng.choice([_agg("WPM"), _agg("WPM"), _agg("WSM"), _agg("RatioMOORA"), _agg("FMF"), None])
+        spec = _pipe(_tr("InvertMinimize"), agg) if agg else _tr("InvertMinimize")
+        mc = _special(rng, _mixed_objectives(rng, _plain_dm(rng)), "zero-in-min")
+    elif flavour == "0/0-nan":
+        which = rng.choice(["cenit", "critic", "critic", "cenit-pipe", "vector0", "sum0"])
+        mc = _plain_dm(rng, m=rng.randint(3, 5), n=rng.randint(2, 4), positive=which not in ("vector0", "sum0") or rng.random() < 0.5)
+        j, v = rng.randrange(len(mc["matrix"][0])), (0.0 if which in ("vector0", "sum0") else rng.randint(1, 40) / 8)
+        for r in mc["matrix"]:
+            r[j] = v
+        spec = {"cenit": _tr("CenitDistanceMatrixScaler"),
+                "critic": _tr("CRITIC", correlation=rng.choice(["pearson", "spearman"]), scale=rng.random() < 0.7),
+                "cenit-pipe": _pipe(_tr("CenitDistanceMatrixScaler"), _agg("TOPSIS", metric="euclidean"), op=rng.choice(["evaluate", "transform"])),
+                "vector0": _tr("VectorScaler", target="matrix"), "sum0": _tr("SumScaler", target="matrix")}[which]
+    elif flavour == "log-tiny":
+        spec = rng.choice([_tr("EntropyWeighter"), _agg("WPM"), _agg("FMF"), _pipe(_tr("SumScaler", target="both"), _agg("WPM")),
+                           _pipe(_tr("EntropyWeighter"), _agg("WSM"))])
+        mc = _plain_dm(rng, mix="max" if spec != _agg("FMF") else None)
+        for _ in range(rng.randint(1, 2)):
+            _special(rng, mc, "tiny")
+    elif flavour == "overflow-inf":
+        spec = rng.choice([_agg("WSM"), _tr("VectorScaler", target="matrix"), _tr("StandarScaler", target="matrix"), _agg("FMF"), _agg("WPM"), _agg("RatioMOORA"),
+                           _pipe(_tr("SumScaler", target="matrix"), _agg("WSM"))])
+        mc = _special(rng, _plain_dm(rng, mix="max"), "huge")
+    elif flavour in ("iterative-imputer", "knn-imputer"):
+        if flavour == "iterative-imputer":
+            kw = {"sample_posterior": True, "random_state": None if global_rng_ok and rng.random() < 0.4 else rng.randint(0, 2 ** 31 - 1)}
+            if rng.random() < 0.3:
+                kw.update(imputation_order="random", max_iter=3)
+            spec = _tr("IterativeImputer", **kw)
+        else:
+            spec = _tr("KNNImputer", n_neighbors=rng.choice([1, 2, 5]), weights=rng.choice(["uniform", "distance"]))
+        if rng.random() < 0.4:
+            spec = _pipe(spec, _agg("TOPSIS", metric="euclidean"), op=rng.choice(["evaluate", "transform"]))
+        mc = _plain_dm(rng, m=rng.randint(4, 6), n=rng.randint(2, 4))
+        rows, cols = len(mc["matrix"]), len(mc["matrix"][0])
+        for j in rng.sample(range(cols), 2):
+            mc["matrix"][rng.randrange(rows)][j] = None
+    else:
+        raise KeyError(flavour)
+    return {"same": False, "spec": spec, "mc": mc, "flavour": flavour}
+
+
+def gen_refuse_case(rng, way, cls=None, piped=False, how=None):
+    fail = gen_refusal(rng, way, cls, piped, how)
+    before = rng.random() < 0.25
+    probes = [fp_probe(rng, f, global_rng_ok=not before) for f in PROBE_FLAVOURS]
+    probes.append(same_object_probe(rng, fail))
+    if rng.random() < 0.5:
+        probes.append(same_object_probe(rng, fail))
+    rng.shuffle(probes)
+    return {"kind": "refuse", "spec": fail["spec"], "fail": fail, "repeat": rng.choice([1, 1, 2]), "probes": probes, "before": before,
+            "ambient": rng.choice(AMBIENT), "npseed": rng.randint(0, 2 ** 31 - 1)}
+
+
+def refuse_plan(rng, n):
+    """n refused calls: every way the library refuses input, by every class that refuses it, alone and as the last step of a
+    pipeline (every way the value can reach it); further ones at random"""
+    plan = []
+    for way, classes in REFUSE_WAYS.items():
+        for cls in classes:
+            plan.append((way, cls, False, None))
+        for k, cls in enumerate(classes):
+            plan.append((way, cls, True, REFUSE_PRE[way][k % len(REFUSE_PRE[way])]))
+    plan += [("shape", None, False, "garbage"), ("shape", None, True, "onerow"), ("short-b", None, False, "short"),
+             ("missing", None, False, None), ("missing", None, True, None)]
+    rng.shuffle(plan)
+    # the zero / negative / minimise refusals of the four classes the property's domain names, first
+    plan.sort(key=lambda t: 0 if t[0] in ("zero", "neg", "allmin") else 1)
+    out = []
+    while len(out) < n:
+        if len(out) < len(plan):
+            out.append(plan[len(out)])
+        else:
+            way = rng.choice(list(REFUSE_WAYS) * 2 + ["shape", "short-b", "missing"])
+            out.append((way, None, rng.random() < 0.5, None))
+    return [gen_refuse_case(rng, *t) for t in out]
+
+
+def _ambient(case):
+    """the caller's process-wide settings, made once at the start of a process (the run under test and every reference alike)"""
+    import random
+    import warnings
+
+    how = case.get("ambient", "default")
+    if how == "ignore":
+        np.seterr(all="ignore")
+    elif how == "warn-all":
+        np.seterr(all="warn")
+    else:
+        np.seterr(divide="warn", over="warn", under="ignore", invalid="warn")  # numpy's defaults
+    warnings.simplefilter("ignore")  # warnings are not outputs (a filter a call leaves IN FRONT of this one still shows)
+    np.random.seed(case["npseed"] % (2 ** 32))
+    random.seed(case["npseed"])
+
+
+def _proc_state():
+    """what a call must not leave changed in the process (for the report; the oracle compares OUTPUTS)"""
+    import random
+    import warnings
+
+    return {"np.geterr": dict(np.geterr()), "warnings.filters": [_repr(f[:3]) for f in warnings.filters[:4]],
+            "n_warnings.filters": len(warnings.filters), "np.random": digest(np.random.get_state()[1])[:12],
+            "random": _sha(repr(random.getstate()).encode())[:12]}
+
+
+def raw_call(obj, op, arg, kw=None):
+    """one call, NOT wrapped in errstate / catch_warnings"""
+    extra = _call_kwargs(obj, op, kw)
+    try:
+        out = getattr(obj, op)(arg, **extra)
+    except Exception as e:
+        return {"err": type(e).__name__, "msg": str(e)[:160]}
+    return {"ok": digest(out), "sum": C.jsonable(summary(out))}
+
+
+def run_refuse(case):
+    """ONE process: [the probes,] the refused call, the probes"""
+    _ambient(case)
+    fail = case["fail"]
+    obj, op = build(fail["spec"])
+
+    def probes():
+        outs = []
+        for p in case["probes"]:
+            o, oop = (obj, op) if p["same"] else build(p["spec"])
+            outs.append(raw_call(o, oop, mk_input(p["mc"])))
+        return outs
+
+    res = {"before": probes() if case.get("before") else None, "state0": _proc_state()}
+    res["fails"] = [raw_call(obj, op, mk_input(fail["mc"]), fail.get("kw")) for _ in range(case.get("repeat", 1))]
+    res["state1"] = _proc_state()
+    res["after"] = probes()
+    return res
+
+
+def refuse_reference(case, k):
+    """a fresh process with the same settings of the caller, in which probe k is the only call"""
+    _ambient(case)
+    p = case["probes"][k]
+    obj, op = build(p["spec"])
+    return raw_call(obj, op, mk_input(p["mc"]))
+
+
+def judge_refuse(case, obs, name):
+    out = []
+    fail = case["fail"]
+    refused = f"{name} refused a call ({fail['label']}: {obs['fails'][0].get('err', 'NOT refused')} {obs['fails'][0].get('msg', '')[:60]!r})"
+    left = {k: [obs["state0"][k], obs["state1"][k]] for k in obs["state0"] if obs["state0"][k] != obs["state1"][k]}
+    note = (" - the process after the refused call differs from before it in " + json.dumps(left)) if left else ""
+    for k, p in enumerate(case["probes"]):
+        if obs["fresh2"][k] is not None and not _same(obs["fresh"][k], obs["fresh2"][k]):
+            return [_pfinding(f"{spec_name(p['spec'])}: two fresh processes disagree on the same matrix ({p['flavour']})", obs["fresh"][k], obs["fresh2"][k])]
+    for k, f in enumerate(obs["fails"][1:]):
+        if not _same(obs["fails"][0], f):
+            out.append(_pfinding(f"{name}: the same out-of-domain matrix ({fail['label']}) is answered differently the {k + 2}. time on one object",
+                                 obs["fails"][0], f))
+            break
+    for when in ("after", "before"):
+        for k, p in enumerate(case["probes"]):
+            if obs[when] is None or _same(obs[when][k], obs["fresh"][k]):
+                continue
+            who = "the SAME object" if p["same"] else f"a NEW {spec_name(p['spec'])}"
+            done = list(zip(case["probes"], obs["before"] or []))[: k if when == "before" else None]
+            if when == "after":
+                done += list(zip(case["probes"], obs["after"]))[:k]
+            earlier = [f"{spec_name(q['spec'])} ({q['flavour']}): {o['err']}" for q, o in done if "err" in o]
+            if earlier and not (when == "after" and left):
+                note = note + " - calls of this process that raised before it: " + "; ".join(earlier[:6])
+            if when == "after":
+                what = (f"{refused}; afterwards, in the same process, {who} on a matrix of its domain ({p['flavour']}) does not return what "
+                        f"a fresh process returns for it{note}")
+            else:
+                what = (f"{who} ({p['flavour']}) called in a process before anything failed (call #{k}) does not return what a fresh "
+                        "process returns for it")
+            out.append(_pfinding(what + "; matrix: " + json.dumps({a: p["mc"].get(a) for a in ("matrix", "objectives", "weights")}),
+                                 obs["fresh"][k], obs[when][k]))
+            return out
+    return out
+
+
 # ----------------------------------------------------------------------------- generation
 
 
@@ -1501,6 +1889,12 @@ def gen(ctx, search=False):
     step = max(1, len(cases) // n_stream)
     for t in range(n_stream):
         cases.insert(min(len(cases), 5 + t * (step + 1)), gen_stream_case(rng, t))
+    # a refused call followed, in the same process, by calls through floating-point special cases / third-party estimators: a
+    # fixed share of every run (spread over the list)
+    n_ref = 160 if search else ctx.n(40, 200)
+    step = max(1, len(cases) // n_ref)
+    for t, c in enumerate(refuse_plan(rng, n_ref)):
+        cases.insert(min(len(cases), 4 + t * (step + 1)), c)
     if ctx.thorough and not search:
         # every sequence of length <= 4 over a pool of three matrices (two accepted, of different shape; one refused)
         for spec in spec_round(rng):
@@ -1582,6 +1976,14 @@ def observe(case):
                 obs["kws"] = kws
                 obs["fresh_kw"] = {str(k): in_child(fresh_output, spec, pool[seq[k]], kws[k]) for k in range(len(seq)) if kws[k]}
                 obs["fresh_kw2"] = {str(k): in_child(fresh_output, spec, pool[seq[k]], kws[k]) for k in range(len(seq)) if kws[k]}
+            return obs
+        if kind == "refuse":
+            n = len(case["probes"])
+            obs = in_child(run_refuse, case)
+            obs["fresh"] = [in_child(refuse_reference, case, k) for k in range(n)]
+            # a second reference only where it decides something: is a difference due to the history or to the method itself?
+            differs = [any(o is not None and not _same(o[k], obs["fresh"][k]) for o in (obs["before"], obs["after"])) for k in range(n)]
+            obs["fresh2"] = [in_child(refuse_reference, case, k) if differs[k] else None for k in range(n)]
             return obs
         if kind == "ctor":
             return {"ref": in_child(ctor_reference, case), "ref2": in_child(ctor_reference, case), "seq": in_child(ctor_sequence, case)}
@@ -1696,6 +2098,8 @@ def judge(case, obs, replies):
         return out + judge_ctor(case, obs, name)
     if kind == "stream":
         return out + judge_stream(case, obs, name)
+    if kind == "refuse":
+        return out + judge_refuse(case, obs, name)
     seq, at, outs = obs["seq"], obs["at"], obs["outs"]
     fresh = {int(k): v for k, v in obs["fresh"].items()}
     fresh2 = {int(k): v for k, v in obs["fresh2"].items()}
@@ -1810,6 +2214,8 @@ def nontrivial(case, obs):
         return "ok" in obs["seq"]["out3"] and bool(case["between"])
     if case["kind"] == "stream":
         return obs["n_ok"] >= 50 and obs["n_distinct"] >= 25
+    if case["kind"] == "refuse":
+        return "err" in obs["fails"][0] and sum(1 for f in obs["fresh"] if "ok" in f) >= 3
     if case["kind"] != "hist":
         return True
     ok = {i for i, o in zip(obs["seq"], obs["outs"]) if "ok" in o}
@@ -1844,7 +2250,19 @@ def tags(case, obs):
         t.append("stream-op:" + (case["spec"].get("op", "evaluate") if case["spec"]["k"] == "pipe" else "single-object"))
         for e in obs["errs"]:
             t.append("exc:" + e)
-    if kind in ("hist", "exh", "ctor", "stream"):
+    if kind == "refuse":
+        fail = case["fail"]
+        cls = spec_name(fail["spec"]).split("(")[0] if fail["way"] not in REFUSE_WAYS else _base_agg(fail["spec"])["name"]
+        how = "last-step-of-pipeline" if fail["piped"] else "alone"
+        t.append(f"refused:{fail['way']}:{cls if fail['way'] != 'shape' else 'any-class'}:{how}:" + ("raised" if "err" in obs["fails"][0] else "NOT-REFUSED"))
+        t.append("refuse-ambient:" + case["ambient"])
+        t.append("refuse-probes-also-before:" + str(bool(case["before"])))
+        for p, f in zip(case["probes"], obs["fresh"]):
+            t.append("after-refusal:" + p["flavour"] + ":" + ("accepted" if "ok" in f else "exc-" + f["err"]))
+            if p["flavour"] == "iterative-imputer":
+                kw = (p["spec"]["steps"][0] if p["spec"]["k"] == "pipe" else p["spec"])["kw"]
+                t.append("after-refusal:iterative-imputer:random_state=" + ("None(process-wide generator)" if kw["random_state"] is None else "int"))
+    if kind in ("hist", "exh", "ctor", "stream", "refuse"):
         t.append("family:" + spec_family(case["spec"]))
         t.append("class:" + (spec_name(case["spec"]).split("(")[0]))
     if kind == "hist":
